@@ -7,7 +7,7 @@ package store
 // persist/LAT sidecar changes, explicit deletes, store re-opens, and the real cleanup code
 // (cleanupManager.cleanup / ttlBasedCleanup / customPolicyBasedCleanup with an injected disk
 // usage and a recording FileOp wrapper that can also force the list of scanned names), plus the
-// store calls of blobserver.maybeDelete. After every operation the driver records the result,
+// real blobserver.maybeDelete (through the external half of the driver, zz_verif_c10_x_test.go). After every operation the driver records the result,
 // the files on disk with their sidecars (read raw, not through the store) and the names in the
 // in-memory file map. Two pure streams call cachedInAgentPolicy and CleanupConfig.applyDefaults.
 // Overlaid into lib/store at build time; never present in the repository.
@@ -38,6 +38,10 @@ import (
 )
 
 func TestVerifC10(t *testing.T) { verifhlib.MainEnv("C10", c10driver) }
+
+// VerifC10MaybeDelete runs the real origin/blobserver maybeDelete on cas; it is set by the external
+// half of the driver (zz_verif_c10_x_test.go, package store_test), which can import blobserver.
+var VerifC10MaybeDelete func(cas *CAStore, clk clock.Clock, name string, ttl time.Duration, owns bool, wb []bool) (bool, error)
 
 const (
 	c10NS  = int64(1000000000)
@@ -84,6 +88,7 @@ type c10op struct {
 	cfg    c10cfg
 	forced []int // nil = natural ListNames
 	useF   bool
+	wb     []bool // force: outcomes of the pending write-back tasks
 	// filled when executed
 	scan  []int
 	order []int
@@ -146,7 +151,11 @@ func (o *c10op) coq() string {
 		return fmt.Sprintf("Cleanup (mkcfg %s %s %s %s %s %s) %s %s %s %s", c10z(c.interval), c10z(c.tti), c10z(c.ttl),
 			c10z(c.athr), c10z(c.attl), c10z(c.alow), verifhlib.B(o.flag), c10us(o.usage), c10ns(o.scan), c10ns(o.order))
 	case "force":
-		return fmt.Sprintf("ForceDelete %d %s %s %s", o.n, c10z(o.ttl), verifhlib.B(o.flag), verifhlib.B(o.flag2))
+		bs := make([]string, len(o.wb))
+		for i, b := range o.wb {
+			bs[i] = verifhlib.B(b)
+		}
+		return fmt.Sprintf("ForceDelete %d %s %s %s", o.n, c10z(o.ttl), verifhlib.B(o.flag), verifhlib.List(bs))
 	}
 	panic("c10: unknown op " + o.kind)
 }
@@ -414,39 +423,13 @@ func (e *c10env) exec(o *c10op) string {
 		o.scan, o.order = e.ids(w.scan), e.ids(w.dels)
 		return "OPass true " + verifhlib.B(err != nil)
 	case "force":
-		deleted, failed := e.maybeDelete(name, time.Duration(o.ttl), o.flag, o.flag2)
-		return fmt.Sprintf("ODel %s %s", verifhlib.B(deleted), verifhlib.B(failed))
+		if VerifC10MaybeDelete == nil {
+			panic("c10: external half of the driver is missing")
+		}
+		deleted, err := VerifC10MaybeDelete(e.cas, e.clk, name, time.Duration(o.ttl), o.flag, o.wb)
+		return fmt.Sprintf("ODel %s %s", verifhlib.B(deleted), verifhlib.B(err != nil))
 	}
 	panic("c10: unknown op " + o.kind)
-}
-
-// maybeDelete issues the store calls of origin/blobserver/server.go:1015 maybeDelete in the same
-// order; hash-ring ownership and the outcome of the pending write-back tasks are inputs.
-func (e *c10env) maybeDelete(name string, ttl time.Duration, owns, wb bool) (deleted, failed bool) {
-	info, err := e.cas.GetCacheFileStat(name)
-	if err != nil {
-		return false, true
-	}
-	expired := e.clk.Now().Sub(info.ModTime()) > ttl
-	if expired || !owns {
-		var pm metadata.Persist
-		if err := e.cas.GetCacheFileMetadata(name, &pm); err != nil && !os.IsNotExist(err) {
-			return false, true
-		}
-		if pm.Value {
-			if !wb {
-				return false, true
-			}
-			if err := e.cas.DeleteCacheFileMetadata(name, &metadata.Persist{}); err != nil {
-				return false, true
-			}
-		}
-		if err := e.cas.DeleteCacheFile(name); err != nil {
-			return false, true
-		}
-		return true, false
-	}
-	return false, false
 }
 
 // ---------------------------------------------------------------- generation
@@ -590,7 +573,8 @@ func c10gen(r *verifhlib.Rng, p c10params, snap []c10file, now int64) *c10op {
 		c10forced(r, o, snap)
 		return o
 	default:
-		return &c10op{kind: "force", n: anyName(88), ttl: c10pick(r, []int64{0, p.ttl, c10Hr, 24 * c10Hr}), flag: r.Chance(50), flag2: r.Chance(65)}
+		wbs := [][]bool{{}, {true}, {true}, {false}, {true, true}, {true, false}, {false, true}}
+		return &c10op{kind: "force", n: anyName(88), ttl: c10pick(r, []int64{0, p.ttl, c10Hr, 24 * c10Hr}), flag: r.Chance(50), wb: wbs[r.Intn(len(wbs))]}
 	}
 }
 
@@ -694,7 +678,8 @@ func c10seeds() []struct {
 		{c10params{capCfg: 0, kind: "seed-protected"}, []*c10op{C(0, 10, 0), C(1, 10, 0), P(0, true), T(7 * c10Hr), ttl(c10Hr, c10Hr),
 			C(2, 50, 0), P(2, true), T(2 * c10Hr),
 			{kind: "ttl", tti: c10Hr, ttl: c10Hr, thr: 50, usage: &c10usage{util: 95, total: 1000, used: 900}},
-			pol(0, 1000), {kind: "force", n: 0, ttl: 0, flag: true, flag2: false}, {kind: "force", n: 0, ttl: 0, flag: true, flag2: true}}},
+			pol(0, 1000), {kind: "force", n: 0, ttl: 0, flag: true, wb: []bool{false}}, {kind: "force", n: 2, ttl: 0, flag: true, wb: []bool{true, false}},
+			{kind: "force", n: 0, ttl: 0, flag: true, wb: []bool{true}}, C(3, 5, 0), P(3, true), {kind: "force", n: 3, ttl: c10Hr, flag: false, wb: []bool{}}}},
 		// policy order: consumer-served first (surely-in-agent before), then least recently accessed; budget 30 bytes
 		{c10params{capCfg: 0, kind: "seed-policy"}, []*c10op{C(0, 10, 0), C(1, 10, 0), C(2, 10, 0), C(3, 10, 0), C(4, 10, 0),
 			{kind: "setlat", n: 1, a: (c10T0 + 10*c10NS) / c10NS}, {kind: "setlat", n: 2, a: (c10T0 + 50*c10Min) / c10NS},
@@ -817,6 +802,42 @@ func c10driver(ctx *verifhlib.Ctx) {
 			p.kind, p.capCfg = "policy", []int{0, 8, 3}[r.Intn(3)]
 		}
 		jobs = append(jobs, job{p: p, r: r})
+	}
+	if ctx.Tier == "thorough" {
+		// exhaustive small scope: every history of length <= 3 over 13 operations on two files with
+		// a one-entry map (maximal eviction pressure), ttl pass and policy pass included
+		alpha := func() []*c10op {
+			var a []*c10op
+			for n := 0; n < 2; n++ {
+				a = append(a, &c10op{kind: "create", n: n, a: 10, b: c10T0},
+					&c10op{kind: "read", n: n}, &c10op{kind: "setp", n: n, flag: true},
+					&c10op{kind: "clrp", n: n}, &c10op{kind: "delete", n: n})
+			}
+			a = append(a, &c10op{kind: "tick", a: 2 * c10Hr},
+				&c10op{kind: "ttl", tti: c10Hr, ttl: 0},
+				&c10op{kind: "policy", thr: 0, usage: &c10usage{util: 90, total: 15}})
+			return a
+		}
+		k := len(alpha())
+		var rec func(prefix []int)
+		rec = func(prefix []int) {
+			if len(prefix) > 0 {
+				a := alpha() // fresh op objects: exec fills scan/order in place
+				ops := make([]*c10op, len(prefix))
+				for i, x := range prefix {
+					c := *a[x]
+					ops[i] = &c
+				}
+				jobs = append(jobs, job{p: c10params{capCfg: 1, kind: "exhaustive"}, fixed: ops})
+			}
+			if len(prefix) == 3 {
+				return
+			}
+			for x := 0; x < k; x++ {
+				rec(append(append([]int(nil), prefix...), x))
+			}
+		}
+		rec(nil)
 	}
 	out := make([]verifhlib.Case, len(jobs))
 	var wg sync.WaitGroup
